@@ -445,6 +445,20 @@ def execute(ctx: RunCtx) -> None:
                                          f"({len(sim_rows)} returned, {len(prod)} produced)")
     if any(len(r[2]) != len(r[3]) or int(np.count_nonzero(r[3])) != len(r[4]) for r in records):
         raise Violation("C14/O4-flags", f"{what}: backend flags do not match the number of returned states")
+    # O2a: the lifted seeds (first backend call of every worker) lie exactly on the section and on the energy level
+    ham = ENVS[cfg["env"]]["ham"]
+    seen_workers = set()
+    for (w, _, seeds, _, _, _) in records:
+        if w in seen_workers:
+            continue
+        seen_workers.add(w)
+        for sd in seeds:
+            if sd[col] != 0.0:
+                raise Violation("C14/O1-seed-on-section", f"{what}: lifted seed {sd.tolist()} has {cfg['section']} = {sd[col]!r}")
+            e = abs(ham.H(cmref.z_of(sd)) - cfg["h0"])
+            if e > 1e-8 * max(1.0, abs(cfg["h0"])):
+                raise Violation("C14/O2-seed-energy-level", f"{what}: lifted seed {sd.tolist()} has |H_cm - h0| = {e:.3e} (root solve tolerance is 1e-12)")
+            ctx.probe("seeds_energy_checked")
     n_dropped = sum(int(len(r[3]) - np.count_nonzero(r[3])) for r in records)
     if n_dropped:
         ctx.probe("seed_dropped", n_dropped)
